@@ -219,7 +219,7 @@ func checkC10(e *Env) {
 	// the concurrent flavour of this monitor (C12 is the full treatment)
 	// histories with the other functions' calls in between: within one process, validations
 	// under the same language of strings with equal NFKD forms must agree
-	histCalls := e.runHistories(drv, "C10", e.pick(24, 300), 3, func(ops []plan.Op, res []plan.Res) {
+	judgeHist := func(ops []plan.Op, res []plan.Res) {
 		type seenV struct {
 			i   int
 			acc bool
@@ -244,8 +244,26 @@ func checkC10(e *Env) {
 				return
 			}
 		}
-	})
+	}
+	histCalls := e.runHistories(drv, "C10", e.pick(24, 300), 3, judgeHist)
 	kinds.Add("calls_inside_cross_function_histories", histCalls)
+	// many distinct spellings that need normalising, then the same ones again (and in reverse):
+	// a bounded cache of normal forms must not answer from another string's entry
+	wrapCalls := 0
+	wrapSizes := []int{20, 40, 150, 600, e.pick(2500, 12000)}
+	parallel(len(wrapSizes)*2, e.Workers, func(k int) {
+		g := &seqGen{e: e, r: rng.New(e.Seed, "C10-wrap-"+itoa(k)), bufs: map[int][]byte{}}
+		g.cacheWrap(k%2, wrapSizes[k/2])
+		res, died := e.RunProc(drv, g.ops, nil, 0)
+		if died != "" || len(res) != len(g.ops) {
+			return // crashes are not judged here
+		}
+		judgeHist(g.ops, res)
+		mu.Lock()
+		wrapCalls += len(res)
+		mu.Unlock()
+	})
+	kinds.Add("calls_inside_repeat_after_many_distinct_spellings_histories", wrapCalls)
 	concCalls := e.concurrentSmoke(drv, "C10", e.smokePool("C10", "chk"), e.pick(2, 12), e.pick(300, 1500), e.smokeAgree("chk"))
 
 	// coverage of (language, word, form) triples whose spelling is non-trivial
